@@ -241,7 +241,7 @@ def run(ctx):
                 'division: StochasticTimeThresholdVolume (cycle times x scripted division-time noise) and StateDependentVolume x start times {0, 0.5} x grids that start at or after the initial time (lead 0, 0.25; thorough also 0.5 for the slowest cycle) x grid '
                 'steps {0.125,0.25,0.5} x models with no reactions, with reactions, and whose propensity becomes zero mid-run: every '
                 'trace replayed, and the implementation\'s own output checked against the growth law (positive, non-decreasing, within '
-                'one step of V0*2^(t/cycle), ends at the first grid time at which division is reported). states = distinct (state, '
+                'one step of V0*2^(t/cycle), ends at the first grid time at which division is reported). The time grid is also handed over as a strided view whose gaps hold the midpoints and as a table column next to shifted times (simulator objects and entry point); the conformance oracle is unchanged. states = distinct (state, '
                 'grid index) of the reference.')
     ctx.assumptions = ['direct-method mapping as in C05', 'growth law of StochasticTimeThresholdVolume: V0*exp(ln2/cycle * t)']
     pmap(run_config, cfgs, ctx, nshards=len(cfgs))
